@@ -70,7 +70,10 @@ CHECKS = {
         text="Model/Expand.v transcribes expand_args/expand_recurse/argument binding/#if/#ifeq/#switch/add_newline/finalize on "
              "the cookie representation and is compared, output for output, with Wtp.expand on generated acyclic libraries and "
              "pages (the encoded ASTs are read back from the implementation's cookie table). Proved for all inputs: the argument "
-             "map is last-binding-wins, plain text is unchanged by both passes and finalisation, the automatic newline rule. "
+             "map is last-binding-wins, plain text is unchanged by both passes and finalisation, the automatic newline rule; "
+             "c04_includable_part: Model/Body.v (_template_to_body as six scanner passes, compared with the implementation on "
+             "generated tag soups incl. case/blank variants and unclosed tags) yields the documented includable part for every "
+             "arrangement of comments, noinclude, includeonly and onlyinclude elements with bracket-free texts. "
              "PARTIAL: equality with the independent MediaWiki reference semantics is decided per run by harness/gen_wt.py:Ref, "
              "not by a refinement theorem; _template_to_body is exercised through include wrappers, not modelled.",
         note=TRUST + "regex-based _encode/preprocess_text/_template_to_body are glue under the diff; ASCII whitespace; "
